@@ -16,10 +16,17 @@ use std::io::Write;
 use std::os::unix::fs::FileExt;
 use std::path::PathBuf;
 use std::sync::atomic::{AtomicU64, Ordering};
-use std::sync::Arc;
 use std::time::{Duration, Instant};
 
 pub const HANG_SECS: u64 = 10;
+
+/// process-wide progress counter watched by the watchdog (units, ticks, scheduler decisions)
+pub static PROGRESS: AtomicU64 = AtomicU64::new(0);
+
+#[inline]
+pub fn progress() {
+    PROGRESS.fetch_add(1, Ordering::Relaxed);
+}
 const MAX_VIOLATIONS_PER_CLAUSE: usize = 8;
 const MAX_SAMPLES: usize = 12;
 
@@ -46,7 +53,6 @@ pub struct Run {
     pub seed: u64,
     out: Option<PathBuf>,
     journal: Option<File>,
-    progress: Arc<AtomicU64>,
     start: Instant,
     budget: Option<Duration>,
     // counters
@@ -129,13 +135,12 @@ impl Run {
             j.push(".journal");
             File::create(PathBuf::from(j)).expect("cannot create journal")
         });
-        let progress = Arc::new(AtomicU64::new(0));
         if matches!(mode, Mode::Explore | Mode::OnlyUnit(_)) {
             // watchdog: no progress for HANG_SECS => exit 3 (the journal names the unit)
-            let p = progress.clone();
             std::thread::Builder::new()
                 .name("verif watchdog".into())
                 .spawn(move || {
+                    let p = &PROGRESS;
                     let mut last = p.load(Ordering::Relaxed);
                     let mut since = Instant::now();
                     loop {
@@ -161,7 +166,6 @@ impl Run {
             seed,
             out,
             journal,
-            progress,
             start: Instant::now(),
             budget,
             evaluations: 0,
@@ -233,14 +237,14 @@ impl Run {
         if let Some(j) = &self.journal {
             let _ = j.write_all_at(&idx.to_le_bytes(), 0);
         }
-        self.progress.fetch_add(1, Ordering::Relaxed);
+        progress();
         true
     }
 
     /// progress signal inside a long unit
     #[inline]
     pub fn tick(&self) {
-        self.progress.fetch_add(1, Ordering::Relaxed);
+        progress();
     }
 
     pub fn out_of_time(&mut self) -> bool {
